@@ -28,14 +28,18 @@ def source_lines(fm):
         return ['<source unavailable: %s>' % e]
 
 
-def write_replay(pid, info, fn, o, tags, kind, text):
+def write_replay(pid, info, fn, fails):
+    """fails: list of (obligation, tags, kind, text) of one function.  One replay file per function;
+    the first contract / model obligation is the headline, the rest are listed."""
     fm = next(f for f in info['meta']['functions'] if f['cname'] == fn)
     d = os.path.join(VERIF, 'replays', pid)
     os.makedirs(d, exist_ok=True)
+    fails = sorted(fails, key=lambda t: (t[2] == 'safety', t[0]['name']))
+    o, tags, kind, text = fails[0]
     path = os.path.join(d, re.sub(r'[^A-Za-z0-9_.-]', '_', '%s.%s.json' % (fn, o['name'])))
     native = None
     try:
-        import native_replays  # registers replayers
+        import native_replays  # noqa: F401  (registers replayers)
     except ImportError:
         pass
     for ur, fr, f in NATIVE:
@@ -49,6 +53,7 @@ def write_replay(pid, info, fn, o, tags, kind, text):
     doc = {
         'property': pid, 'failed_obligation': o['name'], 'obligation_kind': kind, 'obligation_tags': tags,
         'obligation_text': text, 'cbmc_description': o.get('desc'),
+        'other_failed_obligations': [{'name': x[0]['name'], 'kind': x[2], 'text': x[3][:300], 'cbmc_description': x[0].get('desc')} for x in fails[1:]],
         'function': fm['qualname'], 'c_function': fn, 'unit': info['unit'],
         'repo_source_of_function': source_lines(fm),
         'nearest_repo_line': '%s:%s' % tuple(src) if src else None,
